@@ -25,6 +25,7 @@ spec/Trace_PSyIRTree_Local.tla: raised => unchanged; returned =>
 LocalParentChildAgree / LocalValidAtPosition / LocalAcyclic of PSyIRTree.tla.
 PV_C14_BINDINGS=A|B|AB selects the bindings (demonstrations).
 '''
+import gc
 import json
 import os
 import shutil
@@ -245,10 +246,8 @@ def _dump(args):
         raise core.MachineryError(
             f"PSyIRTree.tla ({uni['name']}) does not satisfy its own invariants "
             f"or failed: {res.invariant_violated or res.error or res.out[-1500:]}")
-    trans = res.printed("TR")
-    _log(f"dump {uni['name']}: {res.distinct} states, {len(trans)} transitions, "
-         f"TLC wall {res.wall:.1f}s")
-    return uni, res, trans
+    _log(f"dump {uni['name']}: {res.distinct} states, TLC wall {res.wall:.1f}s")
+    return uni, res
 
 
 def _generate(args):
@@ -261,13 +260,8 @@ def _generate(args):
         raise core.MachineryError(
             f"PSyIRTree.tla generator ({uni['name']}) failed: "
             f"{res.invariant_violated or res.error or res.out[-1500:]}")
-    hists = sorted(res.printed("HIST"))
-    expect = uni["traces"] * len(uni["inits"])
-    if len(hists) != expect:
-        raise core.MachineryError(
-            f"generator ({uni['name']}): {len(hists)} histories, expected {expect}")
-    _log(f"generator {uni['name']}: {len(hists)} histories, TLC wall {res.wall:.1f}s")
-    return uni, res, hists
+    _log(f"generator {uni['name']}: TLC wall {res.wall:.1f}s")
+    return uni, res
 
 
 def _key(children):
@@ -320,7 +314,7 @@ class _Table:
         return i
 
 
-def _validate(tmp, universes_kinds, records, corrupt=None):
+def _validate(tmp, universes_kinds, records):
     '''records: list of (u, rec) with rec = [pre_ch, pre_pa, op, raised, exc,
     post_ch, post_pa, how].  Returns (verdicts {idx: (clause, witness)},
     diverged set, states, transitions).'''
@@ -344,7 +338,7 @@ def _validate(tmp, universes_kinds, records, corrupt=None):
         path, n = run
         res = core.run_tlc("Trace_PSyIRTree.tla", "Trace_PSyIRTree.cfg",
                            env={"PV_CASES": path}, timeout=3000,
-                           workers=max(1, PAR // max(1, min(len(runs), 4))))
+                           workers=max(1, PAR // (2 * max(1, min(len(runs), 4)))))
         if res.distinct != 2 * n:
             raise core.MachineryError(
                 f"C14 trace validation did not consume every tuple: "
@@ -448,6 +442,204 @@ def _binding_b(out, cov, handle, tmp, tier):
         raise core.MachineryError(f"C14 binding B: pytest exit {prc}: {summary}")
 
 
+# ------------------------------------------------------ binding A, streamed
+
+FLUSH = 120000          # recorded tuples held before TLC judges them
+
+
+class _Stream:
+    """Binding A, one universe at a time: replay, buffer the recorded tuples,
+    let TLC judge the buffer when it is large enough, account, forget."""
+
+    def __init__(self, out, cov, tmp, corrupt, pool):
+        self.out, self.cov, self.tmp, self.corrupt = out, cov, tmp, corrupt
+        self.pool = pool
+        self.cats = Counter()
+        self.div_ops = Counter()
+        self.n_exh = self.n_hist_calls = self.n_hists = 0
+        self.pending = []           # (future of _validate, batch) in order
+        self.nbatch = 0
+        self.vex = ThreadPoolExecutor(max_workers=2)
+        self._reset()
+
+    def _reset(self):
+        self.kinds_table = []       # universes of the trace files
+        self.records = []           # (u index, rec)
+        self.meta = []              # (uni name, source, model key, history)
+        self.models = {}
+        self.hist_ranges = []
+        self.exh = []               # indices of exhaustive records
+
+    def _map(self, fn, items):
+        if self.pool is None or len(items) < 2:
+            return [fn(x) for x in items]
+        return self.pool.map(fn, items, max(1, len(items) // (PAR * 8)))
+
+    def add_dump(self, uni, res):
+        cov = self.cov
+        trans = res.printed("TR")
+        res.out = ""
+        jobs, model, nstates = _jobs_of_dump(uni, trans)
+        ntrans = len(trans)
+        del trans
+        self.kinds_table.append(uni["kinds"])
+        u = len(self.kinds_table)
+        self.models[uni["name"]] = model
+        cov["states"] += res.distinct
+        cov["transitions"] += res.generated
+        cov["universes"][uni["name"]] = {
+            "nodes": len(uni["kinds"]), "kinds": uni["kinds"],
+            "model_states": res.distinct, "model_depth": res.depth,
+            "history_bound": uni["depth"], "labelled_transitions": ntrans,
+            "ops": len(uni["ops"])}
+        if nstates != res.distinct:
+            raise core.MachineryError(
+                f"{uni['name']}: dump names {nstates} states, TLC found "
+                f"{res.distinct}")
+        results = self._map(real.run_group, jobs)
+        got = 0
+        for job, recs in zip(jobs, results):
+            for rec in recs:
+                got += 1
+                if rec[3] < 0:
+                    cov["unsupported"] += 1
+                    continue
+                self.exh.append(len(self.records))
+                self.records.append((u, rec))
+                self.meta.append((uni["name"], "exhaustive",
+                                  (_key(job[1]), tuple(rec[2])), job[2]))
+                self.n_exh += 1
+        if got != ntrans:
+            raise core.MachineryError("replay lost transitions")
+        _log(f"replayed {uni['name']}: {ntrans} transitions")
+        if len(self.records) >= FLUSH:
+            self.flush()
+
+    def add_hists(self, uni, res):
+        cov = self.cov
+        hists = sorted(res.printed("HIST"))
+        res.out = ""
+        expect = uni["traces"] * len(uni["inits"])
+        if len(hists) != expect:
+            raise core.MachineryError(
+                f"generator ({uni['name']}): {len(hists)} histories, expected "
+                f"{expect}")
+        self.kinds_table.append(uni["kinds"])
+        u = len(self.kinds_table)
+        cov["states"] += res.distinct
+        cov["transitions"] += res.generated
+        hjobs = [(uni["kinds"], h[0][2], [st[0] for st in h[1:]]) for h in hists]
+        del hists
+        hres = self._map(real.run_history, hjobs)
+        for job, recs in zip(hjobs, hres):
+            lo = len(self.records)
+            for k, rec in enumerate(recs):
+                if rec[3] < 0:
+                    cov["unsupported"] += 1
+                    break
+                self.records.append((u, rec))
+                self.meta.append((uni["name"], "history", None, job[2][:k]))
+            self.hist_ranges.append((lo, len(self.records)))
+            self.n_hist_calls += len(self.records) - lo
+            self.n_hists += 1
+        _log(f"replayed {len(hjobs)} histories of {uni['name']}")
+        if len(self.records) >= FLUSH:
+            self.flush()
+
+    def flush(self):
+        """Hand the buffer to TLC (in the background: the next universe is
+        replayed meanwhile) and account the batches TLC has finished."""
+        if self.records:
+            if self.corrupt:            # binding demonstration (trace corruption)
+                self.corrupt(self.records)
+                self.corrupt = None
+            batch = (self.records, self.meta, self.models, self.kinds_table,
+                     self.hist_ranges, self.exh)
+            self.nbatch += 1
+            vdir = os.path.join(self.tmp, f"validate-{self.nbatch}")
+            os.makedirs(vdir)
+            fut = self.vex.submit(_validate, vdir, self.kinds_table, self.records)
+            self.pending.append((fut, batch, vdir))
+            self._reset()
+        while self.pending and (self.pending[0][0].done() or len(self.pending) > 2):
+            self._account()
+
+    def finish(self):
+        self.flush()
+        while self.pending:
+            self._account()
+        self.vex.shutdown()
+
+    def _account(self):
+        fut, batch, vdir = self.pending.pop(0)
+        records, meta, models, kinds_table, hist_ranges, exh = batch
+        cov, cats = self.cov, self.cats
+        # TLC decides every recorded tuple
+        verdicts, diverged, st, gen = fut.result()
+        shutil.rmtree(vdir, ignore_errors=True)
+        _log(f"validated {len(records)} tuples: {len(verdicts)} verdicts")
+        cov["states"] += st
+        cov["transitions"] += gen
+        cov["traces_validated_against_impl"] += len(records)
+        in_hist_after = set()
+        for lo, hi in hist_ranges:       # a history is judged up to its first failure
+            for idx in range(lo, hi):
+                if idx in verdicts:
+                    in_hist_after.update(range(idx + 1, hi))
+                    break
+        for idx, (u, rec) in enumerate(records):
+            uname, source, mkey, history = meta[idx]
+            if idx in in_hist_after:
+                cats["after_first_failure_in_history"] += 1
+                continue
+            if idx in verdicts:
+                clause, wit = verdicts[idx]
+                if clause == "PreNotWellFormed":
+                    raise core.MachineryError(
+                        "a real call was made from an ill-formed pre-state: "
+                        + json.dumps(rec))
+                case = _case(uname, kinds_table[u - 1], rec, source, history)
+                detail = dict(wit)
+                detail["effect"] = detail.pop("eff") if detail.pop("effok") else None
+                if mkey is not None:
+                    ok, to = models[uname][mkey]
+                    case["model"] = {"may_succeed": bool(ok), "to": to}
+                fid = self.out.violation(case, clause, detail)
+                cats["known:" + fid if fid else "violation"] += 1
+                continue
+            if idx in diverged:
+                cov["divergences"] += 1
+                self.div_ops[rec[2][0]] += 1
+                cats["returned_wellformed_but_not_list_effect"] += 1
+            elif rec[3]:
+                if mkey is not None and models[uname][mkey][0]:
+                    cats["implementation_stricter_than_model"] += 1
+                else:
+                    cats["refused_as_model"] += 1
+            else:
+                cats["success_as_model"] += 1
+        # cross-check: TLC's dump and TLC's trace verdicts agree on the effect
+        for idx in exh:
+            u, rec = records[idx]
+            uname, _, mkey, _ = meta[idx]
+            ok, to = models[uname][mkey]
+            if not rec[3] and idx not in verdicts:
+                same = bool(ok) and rec[5] == to
+                if same == (idx in diverged):
+                    raise core.MachineryError(
+                        "dump and trace spec disagree on the list effect: "
+                        + json.dumps(rec))
+        if len(cov["samples"]) < 6:
+            for idx in (0, len(records) // 2, len(records) - 1):
+                u, rec = records[idx]
+                cov["samples"].append(
+                    {"universe": meta[idx][0], "source": meta[idx][1],
+                     "kinds": kinds_table[u - 1], "pre": rec[0],
+                     "call": _pyline(rec[2]),
+                     "outcome": "raised " + rec[4] if rec[3] else "returned",
+                     "post": rec[5]})
+
+
 # ------------------------------------------------------------------- the check
 
 def run(tier, corrupt=None):
@@ -469,156 +661,45 @@ def run(tier, corrupt=None):
         ulist = [u for u in ulist if u["name"] in only]
         hlist = [u for u in hlist if u["name"] in only]
     _log("start")
+    handle = None
     try:
         # binding B runs beside binding A: the repository's tests under the recorder
-        handle = None
         if "B" in bindings:
             handle = suite.start(tmp, tier, min(8, PAR))
-        # 1. the model: check + dump transitions; generate long histories
-        with ThreadPoolExecutor(max_workers=PAR) as ex:
-            fut_d = [ex.submit(_dump, (tmp, u)) for u in ulist]
-            fut_g = [ex.submit(_generate, (tmp, u)) for u in hlist]
-            dumps = [f.result() for f in fut_d]
-            gens = [f.result() for f in fut_g]
-
-        kinds_table = []        # universes of the trace files
-        records = []            # (u index, rec)
-        meta = []               # per record: (uni name, source, model key, history)
-        models = {}
-        jobs_all = []
-        n_dumped = 0
-        while dumps:
-            uni, res, trans = dumps.pop(0)
-            n_dumped += len(trans)
-            jobs, model, nstates = _jobs_of_dump(uni, trans)
-            kinds_table.append(uni["kinds"])
-            u = len(kinds_table)
-            models[uni["name"]] = model
-            cov["states"] += res.distinct
-            cov["transitions"] += res.generated
-            cov["universes"][uni["name"]] = {
-                "nodes": len(uni["kinds"]), "kinds": uni["kinds"],
-                "model_states": res.distinct, "model_depth": res.depth,
-                "history_bound": uni["depth"], "labelled_transitions": len(trans),
-                "ops": len(uni["ops"])}
-            if nstates != res.distinct:
-                raise core.MachineryError(
-                    f"{uni['name']}: dump names {nstates} states, TLC found "
-                    f"{res.distinct}")
-            jobs_all += [(u, uni["name"], j) for j in jobs]
-        _log(f"replaying {len(jobs_all)} groups")
-        results = core.pool_map(real.run_group, [j for _, _, j in jobs_all], procs=PAR)
-        _log("replayed")
-        for (u, uname, job), recs in zip(jobs_all, results):
-            for rec in recs:
-                if rec[3] < 0:
-                    cov["unsupported"] += 1
-                    continue
-                records.append((u, rec))
-                meta.append((uname, "exhaustive", (_key(job[1]), tuple(rec[2])),
-                             job[2]))
-        n_exh = len(records)
-        del results
-        if n_exh + cov["unsupported"] != n_dumped:
-            raise core.MachineryError("replay lost transitions")
-
-        # long histories on the same real nodes
-        hjobs = []
-        for uni, res, hists in gens:
-            kinds_table.append(uni["kinds"])
-            u = len(kinds_table)
-            cov["states"] += res.distinct
-            cov["transitions"] += res.generated
-            for h in hists:
-                hjobs.append((u, uni["name"], (uni["kinds"], h[0][2],
-                                               [st[0] for st in h[1:]])))
-        hres = core.pool_map(real.run_history, [j for _, _, j in hjobs], procs=PAR)
-        _log(f"replayed {len(hjobs)} histories")
-        hist_ranges = []
-        for (u, uname, job), recs in zip(hjobs, hres):
-            lo = len(records)
-            for k, rec in enumerate(recs):
-                if rec[3] < 0:
-                    cov["unsupported"] += 1
-                    break
-                records.append((u, rec))
-                meta.append((uname, "history", None, job[2][:k]))
-            hist_ranges.append((lo, len(records)))
-
-        if corrupt:                     # binding demonstration (trace corruption)
-            corrupt(records)
-
-        # 2. TLC decides every recorded tuple
-        verdicts, diverged, st, gen = _validate(tmp, kinds_table, records)
-        _log(f"validated {len(records)} tuples: {len(verdicts)} verdicts")
-        cov["states"] += st
-        cov["transitions"] += gen
-        cov["traces_validated_against_impl"] = len(records)
-
-        # 3. bookkeeping
-        first_bad = {}
-        for lo, hi in hist_ranges:      # a history is judged up to its first failure
-            for idx in range(lo, hi):
-                if idx in verdicts:
-                    first_bad[lo] = idx
-                    break
-        in_hist_after = set()
-        for lo, hi in hist_ranges:
-            if lo in first_bad:
-                in_hist_after.update(range(first_bad[lo] + 1, hi))
-        cats = Counter()
-        div_ops = Counter()
-        for idx, (u, rec) in enumerate(records):
-            uname, source, mkey, history = meta[idx]
-            if idx in in_hist_after:
-                cats["after_first_failure_in_history"] += 1
-                continue
-            if idx in verdicts:
-                clause, wit = verdicts[idx]
-                if clause == "PreNotWellFormed":
-                    raise core.MachineryError(
-                        "a real call was made from an ill-formed pre-state: "
-                        + json.dumps(rec))
-                case = _case(uname, kinds_table[u - 1], rec, source, history)
-                detail = dict(wit)
-                detail["effect"] = detail.pop("eff") if detail.pop("effok") else None
-                if mkey is not None:
-                    ok, to = models[uname][mkey]
-                    case["model"] = {"may_succeed": bool(ok), "to": to}
-                fid = out.violation(case, clause, detail)
-                cats["known:" + fid if fid else "violation"] += 1
-                continue
-            raised = rec[3]
-            if idx in diverged:
-                cov["divergences"] += 1
-                div_ops[rec[2][0]] += 1
-                cats["returned_wellformed_but_not_list_effect"] += 1
-            elif raised:
-                if mkey is not None and models[uname][mkey][0]:
-                    cats["implementation_stricter_than_model"] += 1
-                else:
-                    cats["refused_as_model"] += 1
-            else:
-                cats["success_as_model"] += 1
-        # cross-check: TLC's dump and TLC's trace verdicts agree on the effect
-        for idx in range(n_exh):
-            u, rec = records[idx]
-            uname, _, mkey, _ = meta[idx]
-            ok, to = models[uname][mkey]
-            if not rec[3] and idx not in verdicts:
-                same = bool(ok) and rec[5] == to
-                if same == (idx in diverged):
-                    raise core.MachineryError(
-                        "dump and trace spec disagree on the list effect: "
-                        + json.dumps(rec))
-        cov["outcomes"] = dict(cats)
-        cov["divergences_by_op"] = dict(div_ops)
-        cov["histories"] = {"count": len(hist_ranges),
-                            "calls": len(records) - n_exh,
+        # binding A: TLC checks the universes, dumps transitions and generates
+        # histories concurrently (one worker each); the results are consumed one
+        # universe at a time, in a fixed order, so that memory stays bounded
+        # (the worker pool is forked before any thread exists)
+        pool = None
+        if PAR > 1 and (ulist or hlist):
+            import multiprocessing
+            pool = multiprocessing.get_context("fork").Pool(PAR)
+        stream = _Stream(out, cov, tmp, corrupt, pool)
+        # The parent only holds acyclic JSON-like data, millions of small lists:
+        # the cyclic collector would re-scan them over and over (measured: 5x
+        # slower parsing).  The replay workers (real node trees are cyclic) keep it.
+        gc.disable()
+        try:
+            with ThreadPoolExecutor(max_workers=max(1, PAR - 2)) as ex:
+                fut_d = [ex.submit(_dump, (tmp, u)) for u in ulist]
+                fut_g = [ex.submit(_generate, (tmp, u)) for u in hlist]
+                for fut in fut_d:
+                    stream.add_dump(*fut.result())
+                for fut in fut_g:
+                    stream.add_hists(*fut.result())
+            stream.finish()
+        finally:
+            gc.enable()
+            if pool is not None:
+                pool.terminate()
+                pool.join()
+        cov["outcomes"] = dict(stream.cats)
+        cov["divergences_by_op"] = dict(stream.div_ops)
+        cov["histories"] = {"count": stream.n_hists, "calls": stream.n_hist_calls,
                             "length": hlist[0]["depth"] if hlist else 0}
-        cov["evaluations"] = len(records)
+        cov["evaluations"] = stream.n_exh + stream.n_hist_calls
         cov["distinct_nontrivial"] = sum(
-            v for k, v in cats.items() if k != "refused_as_model")
+            v for k, v in stream.cats.items() if k != "refused_as_model")
         cov["rule"] = ("one evaluation = one real call made on fresh real nodes in "
                        "a model state (every labelled transition of every universe's "
                        "reachable graph within the history bound) or one step of a "
@@ -626,14 +707,6 @@ def run(tier, corrupt=None):
                        "the model or in the implementation, or was judged a violation")
         if handle is not None:
             _binding_b(out, cov, handle, tmp, tier)
-        for idx in (0, n_exh // 2, n_exh - 1, len(records) - 1):
-            if 0 <= idx < len(records):
-                u, rec = records[idx]
-                cov["samples"].append(
-                    {"universe": meta[idx][0], "source": meta[idx][1],
-                     "kinds": kinds_table[u - 1], "pre": rec[0], "call": _pyline(rec[2]),
-                     "outcome": "raised " + rec[4] if rec[3] else "returned",
-                     "post": rec[5]})
     finally:
         if handle is not None and handle["proc"].poll() is None:
             handle["proc"].kill()
